@@ -79,6 +79,8 @@ def run(tier: str, replay=None) -> int:
     timed("dotted", c18_project.run_graph, chk, "registry", ["v1.2", "v1"], [], 3, 0, 0, "dotted-names", load_every=2)
     # result names are literal text, not patterns: '.', '+', '(' in a name match only themselves ('fit.v2' is not 'fit_v2')
     timed("literal", c18_project.run_graph, chk, "registry", ["fit.v2", "fit_v2", "a+b(1)"], [], 3, 0, 0, "literal-names", load_every=2)
+    # a save that fails midway leaves a partial run folder: its number is taken, its leftover files are never rewritten
+    timed("partial", c18_project.run_graph, chk, "registry", ["a", "a_run_b"], [], 4, 0, 0, "partial-runs", load_every=2, max_fails=2)
     # a run specifier in the MIDDLE of a result name must stay part of the name ('a_run_0001_b' is not a run of 'a_b')
     timed("inner", c18_project.run_graph, chk, "project", ["a_run_0001_b", "a_b"], [], 3, 0, 0, "inner-run-specifier", load_every=2)
 
